@@ -52,7 +52,7 @@ def decorate(rng, doc):
         if rng.random() < 0.3:
             p["short"] = rng.choice(["short text", "a & b < c", "x"])
         if rng.random() < 0.2:
-            p["long"] = "a long description\nwith two lines"
+            p["long"] = rng.choice(["a long description\nwith two lines", "x < 3 & y > 4", "&lt;already escaped&gt;"])
         t = p["type"]
         if rng.random() < 0.3 and t["kind"] not in ("abstime", "reltime"):
             t["unit"] = rng.choice(["V", "deg C", "s"])
@@ -92,11 +92,22 @@ def decorate(rng, doc):
         if rng.random() < 0.3:
             c["short"] = "container " + c["name"]
         if rng.random() < 0.2:
-            c["long"] = "long container text"
+            c["long"] = rng.choice(["long container text", "limits: a < b & b > c", "two\nlines &amp; an entity-like text"])
     if rng.random() < 0.5:
         # any order of the container set: derived containers before their bases, nested containers after their users
         rng.shuffle(d["containers"])
     return d
+
+
+def writer_supports(doc):
+    """False for the definitions the writer declares unsupported (ValueError): a time type whose data encoding is not numeric or whose
+    default calibrator is a spline (Model/Xml.v: time_writable)"""
+    for p in doc["params"].values():
+        t = p["type"]
+        if t["kind"] in ("abstime", "reltime"):
+            if t["enc"]["t"] != "num" or (t["enc"].get("default") or [None])[0] == "spline":
+                return False
+    return True
 
 
 def gen(rng, tier):
